@@ -576,6 +576,26 @@ def putAll (secs : List SecBuf) : List Nat → List SecBuf → List SecBuf
   | j :: js, r :: rs => putAll (secs.set j r) js rs
   | _, _ => secs
 
+/-- the object a count was read on, with the count -/
+def liftQN (o : Obj) (x : M (BitVec 32)) : M (Obj × BitVec 32) :=
+  match x with
+  | .error e => .error e
+  | .ok v => pure (o, v)
+
+/-- `DT_VERNEEDNUM` / `DT_VERDEFNUM` as the constructors of the version accessors find it: the dynamic
+    accessor (C12's model) on the first section named `.dynamic` and on `sections[(Elf_Half)sh_link]` of it, both
+    made resident (`verCount`: the constructor's scan) -/
+def dynNum (o : Obj) (need : Bool) : M (Obj × BitVec 32) :=
+  let nm : Bytes := [0x2e, 0x64, 0x79, 0x6e, 0x61, 0x6d, 0x69, 0x63]     -- ".dynamic"
+  match o.secs.findIdx? (fun s => s.name == nm) with
+  | none => liftQN o (verCount need none)
+  | some di =>
+    match settle o di with
+    | none => liftQN o (verCount need none)
+    | some (o1, d) =>
+      let r := settleOpt o1 (dyn_strtab_index d.link).toNat
+      liftQN r.1 (verCount need (some { cfg := ⟨r.1.cls, r.1.enc⟩, sec := d, str := r.2 }))
+
 inductive Query
   | relGet (i : Nat) (k : BitVec 64)
   | relGetResolved (i : Nat) (k : BitVec 64)
